@@ -352,20 +352,22 @@ Theorem poll_loop_zw : forall fuel (s s' : vsock),
   PA s -> poll_loop cci fuel s = (s', PollPending) -> PQ s'.
 Proof.
   intros fuel s s' HA H.
-  apply (poll_loop_W cci PA PA PB PB PB PB PQ) with (fuel := fuel) (s := s); try assumption.
+  cut (exists k' : nat, (k' < 0 + fuel)%nat /\ PQ s'); [intros (k' & _ & HQ); exact HQ|].
+  apply (poll_loop_W cci (fun _ => PA) (fun _ => PA) (fun _ => PB) (fun _ => PB) (fun _ => PB)
+              (fun _ => PB) (fun _ => PB) (fun _ => PQ)) with (s := s); try assumption.
   - (* poll_start *)
-    intros a [HG HW]. split.
+    intros _ a [HG HW]. split.
     + eapply GG_step; [exact H0|apply poll_start_KJ|apply SQ_spR, poll_start_SQ|exact HG].
     + destruct HW as [HW|[HZ HW]]; [left; exact HW|right]. split; [eapply SQ_Z; [apply poll_start_SQ|exact HZ]|].
       destruct HW as [HW|HW]; [left; exact HW|right; exact HW].
-  - intros a [HG HW] _. apply stW_and.
+  - intros _ a [HG HW] _. apply stW_and.
     + apply (stk_G a); [apply maybe_send_syn_ack_KJ|apply stk_SQ_spR, maybe_send_syn_ack_SQ|exact HG].
     + apply (stW_SQ_W0 a); [apply maybe_send_syn_ack_SQ|apply maybe_send_syn_ack_qb|exact HW].
-  - intros a [HG HW] _. apply stW_and.
+  - intros _ a [HG HW] _. apply stW_and.
     + apply (stk_G a); [apply send_ack_KJ|apply stk_SQ_spR, send_ack_SQ|exact HG].
     + apply (stW_SQ_W0 a); [apply send_ack_SQ|apply send_ack_qb|exact HW].
   - (* process_all_incoming_messages *)
-    intros a [HG HW] _. apply stW_and.
+    intros _ a [HG HW] _. apply stW_and.
     + apply (stk_G a); [apply process_all_KJ|apply process_all_spR|exact HG].
     + pose proof (process_all_incoming_messages_pimr cci a) as P'.
       pose proof (process_all_incoming_messages_post cci a) as Post.
@@ -382,11 +384,11 @@ Proof.
         right. split; [|right; split; assumption].
         eapply Z_keep; [apply dout_eq; exact I1|exact I2|exact I9|exact I3|exact HZ].
   - (* flush *)
-    intros a rx1 fb w [HG HW] _ _. split.
+    intros _ a rx1 fb w [HG HW] _ _. split.
     + eapply GG_step; [exact H0|apply rx_flush_KJ|apply SQ_spR, add_wakes_rx_SQ|exact HG].
     + eapply W1_SQ; [apply add_wakes_rx_SQ|apply rx_flush_qb|exact HW].
   - (* split *)
-    intros a [HG HW] [T0 _]. apply stW_and.
+    intros _ a [HG HW] [T0 _]. apply stW_and.
     + apply (stk_G a); [apply split_KJ|apply split_spR|exact HG].
     + destruct HG as (HB & HJ & _).
       pose proof (split_Z now r0 e0 a HB HJ) as HZ'.
@@ -395,7 +397,7 @@ Proof.
       destruct HW as [HW|[HZ HW]]; [left; eapply qb_SC; eauto|right].
       split; [apply HZ'; exact HZ|]. destruct HW as [HW|HW]; [congruence|right; eapply qb_IBE; eauto].
   - (* send_tx_queue *)
-    intros a [HG HW] [T0 R0].
+    intros _ a [HG HW] [T0 R0].
     pose proof (stk_G a _ (send_tx_queue_KJ a) (send_tx_queue_spR cci a) HG) as HG'.
     destruct HG as (HB & HJ & HP).
     pose proof (send_tx_queue_Z now r0 e0 a HB HJ HP) as HZ'.
@@ -409,11 +411,11 @@ Proof.
       unfold IBE in *. rewrite X5, X6. exact HW. }
     split; [|split]; intros; (split; [exact HG'|]); unfold W0, W1, WQ; tauto.
   - (* transition_to_fin_wait_1 *)
-    intros a [HG HW] _. split.
+    intros _ a [HG HW] _. split.
     + eapply GG_step; [exact H0|apply transition_to_fin_wait_1_KJ|apply SQ_spR, transition_to_fin_wait_1_SQ|exact HG].
     + eapply W1_SQ; [apply transition_to_fin_wait_1_SQ|apply transition_to_fin_wait_1_qb|exact HW].
   - (* maybe_send_fin *)
-    intros a [HG HW] _. apply stW_and.
+    intros _ a [HG HW] _. apply stW_and.
     + apply (stk_G a); [apply maybe_send_fin_KJ|apply maybe_send_fin_spR|exact HG].
     + pose proof (maybe_send_fin_qb a) as HQ.
       assert (HZ' : ZW a -> stk (fun _ s' => ZW s') a (maybe_send_fin a)) by apply maybe_send_fin_Z.
@@ -422,15 +424,15 @@ Proof.
       split; [apply HZ'; exact HZ|].
       destruct HW as [HW|HW]; [left; eapply qb_tp; eauto|right; eapply qb_IBE; eauto].
   - (* maybe_send_ack *)
-    intros a [HG HW] _. apply stW_and.
+    intros _ a [HG HW] _. apply stW_and.
     + apply (stk_G a); [apply maybe_send_ack_KJ|apply stk_SQ_spR, maybe_send_ack_SQ|exact HG].
     + apply (stW_SQ_W1 a); [apply maybe_send_ack_SQ|apply maybe_send_ack_qb|exact HW].
-  - intros a [HG HW] _. split; [exact HG|apply W0_WQ; exact HW].
-  - intros a [HG HW] _. split; [exact HG|apply W1_WQ; exact HW].
-  - intros a [HG HW] _. split; [exact HG|apply W1_WQ; exact HW].
-  - intros a [HG HW] _. split; [exact HG|apply W1_WQ; exact HW].
+  - intros _ a [HG HW] _. split; [exact HG|apply W0_WQ; exact HW].
+  - intros _ a [HG HW] _. split; [exact HG|apply W1_WQ; exact HW].
+  - intros _ a [HG HW] _. split; [exact HG|apply W1_WQ; exact HW].
+  - intros _ a [HG HW] _. split; [exact HG|apply W1_WQ; exact HW].
   - (* the timer tail *)
-    intros a [HG HW] _ _. split.
+    intros _ a [HG HW] _ _. split.
     + eapply GG_step; [exact H0|apply poll_tail_KJ|apply SQ_spR, poll_tail_SQ|exact HG].
     + destruct (poll_tail_fields a) as (_ & _ & _ & St & _ & _ & _ & _ & _ & _ & _ & _ & _ & _ & Op & _).
       destruct HW as [HW|[HZ _]]; [left; unfold SC in *; rewrite St, Op; exact HW|right].
